@@ -25,7 +25,7 @@ NF = len(G.FORCED)
 
 
 def plan(tier, seed):
-    return dict(n=612 if tier == 'quick' else 30000, budget_s=75 if tier == 'quick' else 840, case_timeout=120)
+    return dict(n=1224 if tier == 'quick' else 30000, budget_s=75 if tier == 'quick' else 840, case_timeout=120)
 
 
 def gen(tier, seed, index):
